@@ -66,6 +66,17 @@ LeapFamily ==
   {<<DRange(B0(Dt(ys, a[1], a[2])), B0(Dt(ye, b[1], b[2])))>> :
       a \in EdgeDays, b \in EdgeDays, ys \in {-1, 2023, 2024}, ye \in {-1, 2024, 2025}}
   \ {<<DRange(B0(Dt(ys, a[1], a[2])), B0(Dt(ye, a[1], a[2])))>> : a \in EdgeDays, ys \in {-1, 2023, 2024}, ye \in {-1, 2024, 2025}}
+\* bounds that their OFFSET carries over a boundary of the calendar: the end of the year, the end of February (an implementation
+\* that decides from the written month / day alone which years a range touches goes wrong exactly here)
+OffsetEdge ==
+  {<<DRange(B0(Dt(ys, 12, 24)), Bd(Dt(ye, 12, 31), 0, 0, 2))>> : ys \in {-1, 2024}, ye \in {-1}}
+  \cup {<<DRange(B0(Dt(2024, 12, 24)), Bd(Dt(2024, 12, 31), 0, 0, 2))>>,
+        <<DRange(B0(Dt(-1, 12, 24)), Bd(Dt(-1, 12, 31), 1, 6, 0))>>, <<DRange(B0(Dt(-1, 12, 27)), Bd(Dt(-1, 12, 30), 1, 2, 0))>>,
+        <<DRange(Bd(Dt(-1, 1, 1), 0, 0, -1), B0(Dt(-1, 1, 6)))>>, <<DRange(Bd(Dt(-1, 1, 2), 0, 0, -3), B0(Dt(-1, 1, 6)))>>,
+        <<DRange(Bd(Dt(-1, 1, 3), -1, 0, 0), B0(Dt(-1, 1, 10)))>>, <<DRange(Bd(Dt(2025, 1, 1), 0, 0, -2), B0(Dt(2025, 1, 6)))>>,
+        <<DRange(B0(Dt(-1, 2, 20)), Bd(Dt(-1, 2, 28), 0, 0, 2))>>, <<DRange(Bd(Dt(-1, 3, 1), 0, 0, -2), B0(Dt(-1, 3, 5)))>>,
+        <<DSingle(Bd(Dt(-1, 12, 31), 0, 0, 1))>>, <<DSingle(Bd(Dt(-1, 1, 1), 0, 0, -1))>>, <<DSingle(Bd(Dt(-1, 12, 30), 1, 0, 0))>>,
+        <<DSingle(Bd(Dt(2024, 12, 31), 0, 0, 1))>>, <<DSingle(Bd(Dt(-1, 2, 28), 0, 0, 1))>>, <<DSingle(Bd(Dt(-1, 3, 1), 0, 0, -1))>>}
 \* (a range whose bounds are the same written date is a single date in the AST: excluded; a year on the end bound only is kept
 \*  for the parser and for totality, its meaning is left open)
 
@@ -146,7 +157,7 @@ Leads == {WithLead([W("normal", <<>>, <<>>, <<>>, d, t, kw, "") EXCEPT !.comment
              cm \in {[c |-> "", first |-> TRUE], [c |-> "ring the bell", first |-> TRUE], [c |-> "a", first |-> FALSE],
                      [c |-> "by appointment", first |-> TRUE]}}
          \ {w \in {WithLead(W("normal", <<>>, <<>>, <<>>, <<>>, <<>>, kw, ""), "by appointment", TRUE) : kw \in {"", "open", "unknown", "closed"}} : TRUE}
-Edge == {W("normal", <<>>, m, <<>>, <<>>, <<>>, "", "") : m \in LeapFamily}
+Edge == {W("normal", <<>>, m, <<>>, <<>>, <<>>, "", "") : m \in LeapFamily \cup OffsetEdge}
 SingleRules == Alone \cup Pairs \cup Triples \cup Modified \cup YearDates \cup {w \in Leads : w.weekday # <<>> \/ w.written_time}
 
 Base == {W("normal", <<>>, <<>>, <<>>, D1, T1, "", ""),
